@@ -65,7 +65,7 @@ impl Scenario for MhStreams {
         "mh_streams"
     }
     fn runs(&self, tier: Tier) -> u64 {
-        tier.pick(8000, 60_000)
+        tier.pick(8000, 300_000)
     }
     fn generate(&self, g: &mut Gen, _t: Tier, _i: u64) -> Value {
         let nc = g.usize(2, 64);
@@ -199,7 +199,7 @@ impl Scenario for GradStreams {
         "hmc_nuts_streams"
     }
     fn runs(&self, tier: Tier) -> u64 {
-        tier.pick(800, 8_000)
+        tier.pick(800, 40_000)
     }
     fn generate(&self, g: &mut Gen, _t: Tier, _i: u64) -> Value {
         let nc = g.usize(2, 24);
